@@ -487,7 +487,12 @@ class MPFREngine(Engine):
             q = math.floor(_mpfr_eval(gmp.div, x, y, n=-1))
 
             # step 2. compute `x - q * y`
-            return x - q * y
+            r = x - q * y
+            if r.is_zero():
+                # an exact multiple: like every other result of this
+                # operation, the zero takes the sign of `y`
+                return Float(x=r, s=y.s)
+            return r
 
     def mod(self, x: EngineArg, y: EngineArg, ctx: Context) -> EngineRes:
         if isinstance(x, Fraction) or isinstance(y, Fraction):
